@@ -270,20 +270,20 @@ def gen_writes(rng, chunk, big, invalid):
         return []
     writes = []
     if big and rng.random() < 0.7:
-        m = rng.choice([1, 1, 2, 2, 3, 4, 5, 8]) if big == 1 else rng.choice([1, 2, 3, 9, 17, 40, 122])
-        d = rng.choice([-2, -1, 0, 1, 2, rng.randrange(-chunk // 2, chunk // 2)])
+        m = rng.choice([1, 1, 1, 2, 2, 3, 4, 5, 8]) if big == 1 else rng.choice([9, 12, 17, 24, 40])
+        d = rng.choice([-2, -1, 0, 1, 2]) if rng.random() < 0.7 else rng.randrange(-chunk // 2, chunk // 2)
         target = max(1, chunk * m + d)
-        pre = b"xyz"[:rng.randrange(0, 4)]
+        unit = rng.choice(UNITS).encode("utf-8")
+        k = target // len(unit)
+        pre = b"pqrs"[:target - k * len(unit)] if rng.random() < 0.8 else b"xyz"[:rng.randrange(0, 4)]
         if pre:
             writes.append(("a", pre))
-        unit = rng.choice(UNITS).encode("utf-8")
-        k = max(1, (target - len(pre)) // len(unit))
         nsplit = rng.choice([1, 1, 2, 3])
         for j in range(nsplit):
             kk = k // nsplit + (k % nsplit if j == 0 else 0)
             if kk:
                 writes.append(("r", unit, kk))
-        tail = gen_small_payload(rng, invalid)
+        tail = gen_small_payload(rng, invalid) if (invalid or rng.random() < 0.3) else b""
         if tail:
             writes.append(("a", tail))
         return writes
@@ -304,7 +304,7 @@ def gen_case(rng, chunk, tier_big):
     r = rng.random()
     if r < 0.30:
         big = 1
-    if tier_big and r < 0.02:
+    if tier_big and r < 0.01:
         big = 2
     inv = rng.random() < 0.10
     w = [gen_writes(rng, chunk, big, inv and rng.random() < 0.6),
@@ -417,27 +417,35 @@ def sched_stats(case):
     chunk = case["chunk"]
     buf = [bytearray(), bytearray()]
     off = [0, 0]
-    st = {"polls": 0, "in_char": 0, "cr_lf": 0, "cr_end": 0, "exit": False}
+    st = {"polls": 0, "in_char": 0, "cr_end": 0, "full_in_char": 0, "full_cr_end": 0, "exit": False}
+
+    def read_all():
+        for s in (0, 1):
+            n = min(chunk, len(buf[s]) - off[s])
+            off[s] += n
+            if n:
+                last = buf[s][off[s] - 1]
+                inside = last >= 0xC0 or ((last & 0xC0) == 0x80 and _incomplete(buf[s], off[s]))
+                st["in_char"] += inside
+                st["cr_end"] += last == 13
+                if n == chunk:
+                    st["full_in_char"] += inside
+                    st["full_cr_end"] += last == 13
+
     for ev in case["sched"]:
         if ev[0] in ("a", "r"):
             buf[ev[1]] += ev_bytes(ev)
         elif ev[0] == "p":
             st["polls"] += 1
-            for s in (0, 1):
-                n = min(chunk, len(buf[s]) - off[s])
-                off[s] += n
-                if n and off[s] > 0:
-                    last = buf[s][off[s] - 1]
-                    if last >= 0xC0 or (last & 0xC0) == 0x80 and _incomplete(buf[s], off[s]):
-                        st["in_char"] += 1
-                    if last == 13:
-                        st["cr_end"] += 1
+            read_all()
         elif ev[0] == "x":
             st["exit"] = True
             break
     st["total"] = [len(buf[0]), len(buf[1])]
     st["pending_chunks"] = [-(-(len(buf[s]) - off[s]) // chunk) for s in (0, 1)]
-    # a later write starting with LF after a poll that ended on CR
+    if st["exit"]:
+        while off[0] < len(buf[0]) or off[1] < len(buf[1]):
+            read_all()
     return st
 
 
@@ -665,6 +673,11 @@ def run(ctx):
               for (k, rc, t) in [(0, 0, None), (3, 0, None), (0, 255, 5), (2, -15, None), (1, 1, 0)]]
     cases += [{"kind": "sched", "fn": "dup", "chunk": chunk, "timeout": None, "t0": 0, "tkind": "rc",
                "sched": [["a", 0, "o"], ["x", rc]]} for rc in list(range(0, 256, 5)) + [255, -1, -2, -9, -11, -15, -64]]
+    if thorough:
+        cases += [{"kind": "sched", "fn": "dup", "chunk": chunk, "timeout": None, "t0": 0, "tkind": "huge",
+                   "sched": [["r", 0, lat(u.encode()), 1000000 // len(u.encode())], ["p"], ["r", 1, "e\r\n", 50000], ["x", 0]]}
+                  for u in ("a", "\u20ac\r\n")]
+    g0 = len(cases)
     cases += [gen_case(ctx.rng, chunk, thorough) for _ in range(n)]
     cases += [gen_norecord(ctx.rng) for _ in range(40)]
     impl = [run_impl(ctx, c) for c in cases]
@@ -731,7 +744,12 @@ def run(ctx):
     for i in tbad[:3]:
         ctx.violation("reference text_of: text-mode read gives %r, model %r" % (str(timpl[i])[:200], str(tans[i])[:200]),
                       {"kind": "text_of", "bytes": lat(tcs[i])}, no_input=True)
-    kn, kok, kdetail = core.kernel_sample(ctx, model)
+    # a mixed small batch for the kernel-vs-extraction tie (kernel_sample looks at the last batch)
+    mix = [model_req(c) for c in cases[:n_pinned + 5] + cases[g0:g0 + 400] if len(json.dumps(c["sched"])) < 700][:50]
+    mix += [("streams_decode", {"chunks": [lat(c) for c in ch], "final": f}) for ch, f in dcs[-40:]]
+    mix += [("text_of", lat(b)) for b in tcs if len(b) < 300][:20]
+    model.batch(mix)
+    kn, kok, kdetail = core.kernel_sample(ctx, model, limit_chars=60000, max_cases=110)
     ctx.oblige("kernel-vs-extraction-sample", kok, kdetail)
 
     # -- 4. real children ------------------------------------------------------------------
@@ -784,7 +802,8 @@ def run(ctx):
     # -- distribution ----------------------------------------------------------------------
     dist = {"size_out": {}, "size_err": {}, "outcome": {}, "pending_chunks_at_exit": {}, "timeout_kind": {}, "rc": {},
             "faults": {}, "fn": {}}
-    tot = {"polls": 0, "poll_ended_inside_char": 0, "poll_ended_on_CR": 0, "cases_with_invalid_utf8": 0}
+    tot = {"polls": 0, "read_ended_inside_char": 0, "read_ended_on_CR": 0, "full_chunk_read_ended_inside_char": 0,
+           "full_chunk_read_ended_on_CR": 0, "cases_with_invalid_utf8": 0}
 
     def inc(d, k):
         d[str(k)] = d.get(str(k), 0) + 1
@@ -805,8 +824,10 @@ def run(ctx):
                 inc(dist["faults"], k)
         inc(dist["fn"], c.get("fn") + ("" if c.get("record", True) else "-norecord"))
         tot["polls"] += s["polls"]
-        tot["poll_ended_inside_char"] += s["in_char"]
-        tot["poll_ended_on_CR"] += s["cr_end"]
+        tot["read_ended_inside_char"] += s["in_char"]
+        tot["read_ended_on_CR"] += s["cr_end"]
+        tot["full_chunk_read_ended_inside_char"] += s["full_in_char"]
+        tot["full_chunk_read_ended_on_CR"] += s["full_cr_end"]
         if v["outcome"][0] == "decode":
             tot["cases_with_invalid_utf8"] += 1
         if sum(s["total"]) > 0:
@@ -829,7 +850,7 @@ def run(ctx):
                 "writes, exit with 0..many chunks unread, exit codes 0..255 and negative, time limits none/longer/equal-to-the-"
                 "elapsed-time-at-a-poll/shorter, faults in Popen/mkstemp/remove; non-trivial = at least one byte written; "
                 "distinct by schedule+timeout+faults",
-        "samples": [cases[n_pinned + 5 + 59 + k] for k in range(2)] + [cases[1]],
+        "samples": [c for c in cases[g0:g0 + 40] if len(json.dumps(c)) < 1500][:2] + [cases[1]],
         "schedule_cases": len(cases), "schedule_mismatches": len(bad), "trace_only_mismatches": len(drift),
         "decoder_cases": len(dcs), "decoder_mismatches": len(dbad),
         "text_of_cases": len(tcs), "text_of_mismatches": len(tbad),
